@@ -370,9 +370,21 @@ def execute_shipped(trace, ctx):
                 ctx.violate(P, "residue-numbers", f"shipped box: output molecule {k} has residue numbers "
                                                   f"{sorted(set(x[0] for x in chunk))}, input {m.resids}")
                 return
-            if float(np.max(np.abs(got - np.array(mapped.atoms_positions)))) > 0.0005 + 1e-9:
-                ctx.violate(P, "coordinates", f"shipped box: output molecule {k} differs from map(input molecule)")
-                return
+            mp = np.array(mapped.atoms_positions)
+            if len(m) >= 3:
+                if float(np.max(np.abs(got - mp))) > 0.0005 + 1e-9:
+                    ctx.violate(P, "coordinates", f"shipped box: output molecule {k} ({m.name}) differs from map(input molecule)")
+                    return
+            else:
+                # one-bead reference (BF4): the frame is completed at random on every call; only the distance to the
+                # bead is determined (C02)
+                rp0 = np.array(m.atoms_positions)[0]
+                d1 = np.linalg.norm(got - rp0, axis=1)
+                d0 = np.linalg.norm(mp - rp0, axis=1)
+                if float(np.max(np.abs(d1 - d0))) > 0.001:
+                    ctx.violate(P, "coordinates-small-reference", f"shipped box: output molecule {k} ({m.name}): distances to the "
+                                                                  f"bead {d1.round(4).tolist()} vs {d0.round(4).tolist()}")
+                    return
     ctx.probe("shipped_box")
     ctx.nontrivial = True
     ctx.op("shipped", "ok")
